@@ -320,6 +320,91 @@ pub fn c07(c: &mut Collector, seed: u64, shard: u64, nshards: u64, thorough: boo
         LAST_PANIC.with(|l| *l.borrow_mut() = loc);
     }));
     let mut d = Digest(0xcbf29ce484222325);
+    // Before anything else touches the crates in this process: the FIRST uses of the lookup tables,
+    // the opening book, the parser and the generator happen on two threads at once, with nothing
+    // ordering them. The safe API has no interior mutability to synchronise, so this must be as
+    // good as sequential use; a lazily filled cache behind a `static mut` is a data race that Miri
+    // (these shards) reports whatever the schedule, and the answers of the two threads must agree.
+    {
+        c.eval();
+        c.count("concurrent-first-use-cases");
+        c.journal("concurrent first use of lookup tables, book, parser, generator and search on two threads");
+        let work = |tid: u64| -> u64 {
+            let mut h = tid.wrapping_mul(0); // same digest on both threads
+            for (sq, occ) in [(27u8, 0x0008080846000800u64), (63, 0x6600808000008000), (0, 0x0000201008040200), (36, 0xffff00000000ffff)] {
+                h = fnv_mix(h, chess_lookup::rook_moves(pos(sq), BitBoard::from_u64(occ)).to_u64());
+                h = fnv_mix(h, chess_lookup::bishop_moves(pos(sq), BitBoard::from_u64(occ)).to_u64());
+                h = fnv_mix(h, chess_lookup::knight_moves(pos(sq)).to_u64() ^ chess_lookup::king_moves(pos(sq)).to_u64());
+                h = fnv_mix(h, chess_lookup::between(pos(sq), pos(63 - sq)).to_u64() ^ chess_lookup::line(pos(sq), pos(63 - sq)).to_u64());
+            }
+            // the bitboard iterator at and past its end, squares through every conversion
+            for x in [0u64, 1, 1 << 63, 0x8000000000000001, 0xff, !0u64] {
+                let bb = BitBoard::from_u64(x);
+                let n = bb.count() as usize;
+                for k in [0usize, 1, n.saturating_sub(1), n, n + 1, 64, 65, usize::MAX] {
+                    let mut it = bb.iter();
+                    h = fnv_mix(h, it.nth(k).map(|p| p.to_u8() as u64).unwrap_or(99));
+                    h = fnv_mix(h, it.next().map(|p| p.to_u8() as u64).unwrap_or(99) ^ it.size_hint().0 as u64);
+                }
+                let mut m = bb;
+                while m.any() {
+                    h = fnv_mix(h, m.pop().map(|p| p.to_u8() as u64).unwrap_or(99));
+                }
+                h = fnv_mix(h, m.pop().map(|p| p.to_u8() as u64).unwrap_or(99));
+            }
+            for v in [0u8, 7, 8, 63, 64, 65, 127, 128, 255] {
+                h = fnv_mix(h, chess_bitboard::Pos::from_u8(v).map(|p| p.to_u8() as u64).unwrap_or(99));
+                h = fnv_mix(h, chess_bitboard::File::from_u8(v).map(|p| p as u64).unwrap_or(99) ^ chess_bitboard::Rank::from_u8(v).map(|p| p as u64).unwrap_or(99));
+            }
+            let root = chess_lookup::INITIAL_BOOOK_MOVES;
+            h = fnv_mix(h, root.into_iter().count() as u64);
+            h = fnv_mix(h, root.into_iter().size_hint().0 as u64);
+            let first: Vec<_> = root.into_iter().collect();
+            h = fnv_mix(h, first.len() as u64);
+            if let Some(bm) = first.first() {
+                h = fnv_mix(h, bm.children.into_iter().count() as u64);
+                h = fnv_mix(h, bm.children.into_iter().last().map(|x| x.dest.to_u8() as u64).unwrap_or(99));
+            }
+            h = fnv_mix(h, chess_lookup::EMPTY_BOOK_MOVES.into_iter().count() as u64);
+            if let Ok(b) = chess_movegen::fen::parse_fen(b"r3k2r/p1ppqpb1/bn2pnp1/3PN3/1p2P3/2N2Q1p/PPPBBPPP/R3K2R w KQkq - 0 1") {
+                let mut g = b.legals();
+                h = fnv_mix(h, g.len() as u64);
+                if let Some(m) = g.next() {
+                    if let Some(nb) = b.move_new(m) {
+                        h = fnv_mix(h, nb.zobrist());
+                        h = fnv_mix(h, nb.legals().count() as u64);
+                    }
+                }
+                h = fnv_mix(h, b.zobrist() ^ (b.in_check() as u64));
+                h = fnv_mix(h, refmodel::rng::fnv(b.to_string().as_bytes()));
+            }
+            let s = Board::standard();
+            h = fnv_mix(h, s.zobrist());
+            let mut e = Engine::default();
+            let t = CountingTimeout::new(if tid < 2 { 30 } else { 30 });
+            let (m, _) = e.search(&s, &ThreeFold::new(), &t);
+            let _ = chess_engine::verif::take_events();
+            h = fnv_mix(h, m.map(|x| x.source.to_u8() as u64).unwrap_or(99));
+            h
+        };
+        let r = catch_unwind(AssertUnwindSafe(|| {
+            let a = std::thread::spawn(move || work(0));
+            let b = std::thread::spawn(move || work(1));
+            (a.join(), b.join())
+        }));
+        match r {
+            Ok((Ok(x), Ok(y))) => {
+                d.u(x);
+                if x != y {
+                    c.violation("concurrent-first-use-answers-differ", "two-threads", format!("two threads making the same first calls got digests {x:#x} and {y:#x}"), obj());
+                }
+            }
+            _ => {
+                let site = LAST_PANIC.with(|l| l.borrow().clone());
+                c.violation("safe-api-panicked", &site, format!("concurrent first use of the crates panicked at {site}"), obj());
+            }
+        }
+    }
     let mut rng = Rng::new(mix3(seed, shard, 0xC07));
     let n_ops = if small { 6 } else { 40 };
     let budget = if small { 40 } else { 2500 };
